@@ -154,6 +154,14 @@ func deepFrames(all bool) []named {
 			msg = append(b, msg...)
 		}
 		out = append(out, named{fmt.Sprintf("deep/bundle-add-%d", d), msg})
+		// the same nest around a message the parser refuses (an error that travels up through every level)
+		bad := []byte{4, 99, 0, 8, 0, 0, 0, 9}
+		for k := 0; k < d && len(bad)+24 <= 65535; k++ {
+			b := append([]byte{4, 4}, u16(24+len(bad))...)
+			b = append(b, 0, 0, 0, byte(k), 0x4f, 0x4e, 0x46, 0, 0, 0, 8, 0xfd, 0, 0, 0, 7, 0, 0, 0, 0)
+			bad = append(b, bad...)
+		}
+		out = append(out, named{fmt.Sprintf("deep/bundle-add-refused-%d", d), bad})
 	}
 	return out
 }
